@@ -4,6 +4,7 @@ CONSTANTS
   Sizes = {}
   KvPool <- KvPoolSmall
   TokPool <- TokPoolSmall
+  MixPool <- MixPoolSmall
   Extra <- NoExtra
   GFirst = TRUE
   SelDet = TRUE
